@@ -80,7 +80,7 @@ PROPS = {
     'C17': {
         'sidecars': ['contracts/c17_sections.py'],
         'native': 'c17',
-        'level': 'proof',
+        'level': 'other',
         'explanation': 'next_section (section index arithmetic, every subscript in bounds, independent chunk + newline-count '
                        'offset, cumulative prefix, exactly one not_enough_sections past the end and no exception), '
                        'stop_sections (original text and filename restored, stack shrinks), the offset setters and '
@@ -184,7 +184,7 @@ PROPS = {
         'sidecars': ['contracts/c19_types.py'],
         'quick_skip_targets': ['pedal.types.operations:apply_binary_operation'],
         'native': 'c19',
-        'level': 'proof',
+        'level': 'other',
         'explanation': 'The operand-type domain of the first clause is finite: 12 binary operators and 10 comparisons x the 36 '
                        'ordered pairs of core types (int, float, str, list, tuple, bool) are all run through the real TIFA and '
                        'compared with CPython on representative operands (792 ground obligations, exhaustive-eval). Symbolic: '
